@@ -374,6 +374,46 @@ func cmdCheck(args []string) int {
 		}
 	}
 	sort.Strings(missing)
+	// thorough tier: the recorded defects of this property are replayed on the real code. A repaired defect whose replay
+	// reproduces again is a violation (the finding has returned); an open one is expected to reproduce.
+	var replaysRun []map[string]interface{}
+	if *tier == "thorough" {
+		seen := map[string]bool{}
+		for _, k := range known {
+			if k.Property != id || !strings.HasSuffix(k.Replay, "_test.go") || seen[k.Replay] {
+				continue
+			}
+			seen[k.Replay] = true
+			rp := filepath.Join(verifDir, k.Replay)
+			rep, out := runGoReplay(rp)
+			replaysRun = append(replaysRun, map[string]interface{}{"replay": k.Replay, "status": k.Status, "reproduces": rep, "obligation": k.Obligation})
+			if k.Status == "fixed" && rep {
+				violations++
+				os.MkdirAll(replayDir, 0o755)
+				os.WriteFile(filepath.Join(replayDir, "returned_"+filepath.Base(k.Replay)+".txt"), []byte("obligation: "+k.Obligation+"\nreplay: "+rp+"\n\n"+out), 0o644)
+				violationLines = append(violationLines, fmt.Sprintf("VIOLATION property=%s replay=%s obligation=%s (a repaired defect reproduces again on the real code)", id, rp, k.Obligation))
+			}
+			if k.Status == "open" && !rep {
+				notes = append(notes, "replay "+k.Replay+" of the open finding "+k.Obligation+" no longer reproduces")
+			}
+		}
+	}
+	// A function whose contract no longer binds to its (rewritten) body: its postconditions, which were discharged on the
+	// unchanged tree, can no longer be established. They are reported as violations (no failing input), next to the UNBOUND lines.
+	for _, e := range contractErrs {
+		fk := e
+		if i := strings.Index(e, ": "); i >= 0 {
+			fk = e[:i]
+		}
+		for _, b := range missing {
+			if strings.HasPrefix(b, fk+"/post.") {
+				violations++
+				st := &oblStatus{ID: b, Func: fk, Kind: "post", Text: "(postcondition of a function whose contract no longer binds to its body)", Status: "unbound", Output: "contract error: " + e}
+				rp := writeReplay(replayDir, st, id, "the contract of "+fk+" no longer binds to the function body ("+e+"); this postcondition was discharged on the unchanged tree and cannot be established now")
+				violationLines = append(violationLines, fmt.Sprintf("VIOLATION property=%s replay=%s obligation=%s status=unbound no-failing-input-found", id, rp, b))
+			}
+		}
+	}
 	exit := 0
 	for _, l := range knownLines {
 		fmt.Println(l)
@@ -461,6 +501,7 @@ func cmdCheck(args []string) int {
 			"rule":                     "one SMT query per obligation instance (obligation x path); distinct = distinct obligation identifiers; an obligation counts as discharged only if every path instance is unsat (covers: sat)",
 			"samples":                  samples,
 			"known_findings":           knownHit,
+			"replays_run":              replaysRun,
 			"undecided_new":            undecided,
 			"unsupported":              unsupported,
 			"assume_sites":             assumeSites,
@@ -477,6 +518,11 @@ func cmdCheck(args []string) int {
 	os.MkdirAll(filepath.Join(verifDir, "evidence"), 0o755)
 	buf, _ := json.MarshalIndent(ev, "", " ")
 	os.WriteFile(filepath.Join(verifDir, "evidence", id+".json"), buf, 0o644)
+	// the SMT files of a clean run are of no further use (several GB for the large checks); they are kept when
+	// something failed (the replay files name them) or when GOVC_KEEP_WORK is set
+	if exit == 0 && len(undecided) == 0 && len(knownHit) == 0 && os.Getenv("GOVC_KEEP_WORK") == "" {
+		os.RemoveAll(workDir)
+	}
 	return exit
 }
 
